@@ -134,7 +134,7 @@ class C09(Prop):
         return out
 
     def classify(self, case, obs, clause):
-        if isinstance(case, dict) and case.get('kind') == 'big_group':
+        if isinstance(case, dict) and case.get('kind') in ('big_group', 'two_joiners'):
             return None
         je = obs['join_end'] or {}
         if 'joining task was cancelled while' in clause:
